@@ -152,6 +152,13 @@ fn main() {
                 println!("probe {} len={} sig={:016x}", p.0, p.1, p.2);
             }
         }
+        "w2-validate" => {
+            exec::install_panic_hook();
+            match w2::validate_kind_here(&args[2]) {
+                Ok(()) => println!("OK"),
+                Err(e) => println!("ERR {}", e.replace('\n', " ")),
+            }
+        }
         "w2-kinds" => {
             exec::install_panic_hook();
             let (ok, notes) = w2::valid_kinds();
